@@ -1,6 +1,7 @@
 import MpsVerif.Drv.Fifo
 import MpsVerif.Drv.Buffer
 import MpsVerif.Drv.Batch
+import MpsVerif.Drv.Lifecycle
 import MpsVerif.Drv.Ledger
 import MpsVerif.Drv.RemoteExc
 import MpsVerif.Drv.AFifo
@@ -12,6 +13,7 @@ def main (args : List String) : IO UInt32 := do
   | ["fifo"] => Fifo.Drv.main; return 0
   | ["buffer"] => Buffer.Drv.main; return 0
   | ["batch"] => Batch.Drv.main; return 0
+  | ["lifecycle"] => Lifecycle.Drv.main; return 0
   | ["ledger"] => Ledger.Drv.main; return 0
   | ["remoteexc"] => RemoteExc.Drv.main; return 0
   | ["afifo"] => AFifo.Drv.main; return 0
